@@ -386,6 +386,59 @@ pub fn run(ctx: &Ctx) -> PropResult {
         let d = if rng.chance(1, 16) { rng.next() as u32 } else { rng.below(33) as u32 };
         judge_triple(rec, y, m, d, rng.chance(1, 8));
     }));
+    // call sequences: a triple, then a neighbour that differs in one or two components (adjacent year, month
+    // 0/13/±1, same day) — what a "last month"/"last year" memo keyed by year·12+month or by a year range confuses;
+    // and a day followed by days a whole number of years / 400-year cycles / 2^j days away (then the first again)
+    wls.push(Workload::cases("triple_neighbour_sequences", ctx.count(60_000, 1_500_000), move |rec, _idx, rng| {
+        let y = match rng.below(4) {
+            0 => rng.range_i64(-8, 8),
+            1 => *rng.pick(&[1900i64, 2000, 2024, 2100, 2400, -1, 1, -4, -100, -400, 5_879_611, -5_879_611]),
+            2 => rng.range_i64(1600, 2500),
+            _ => rng.range_i64(-5_879_612, 5_879_612),
+        };
+        let m = *rng.pick(&[1u32, 1, 2, 2, 3, 6, 11, 12, 12, 12]);
+        let d = *rng.pick(&[1u32, 10, 28, 29, 30, 31]);
+        judge_triple(rec, y, m, d, false);
+        for _ in 0..3 {
+            let y2 = y + *rng.pick(&[0i64, 0, 1, -1, 1, -1, 400, -400]);
+            let m2 = match rng.below(5) {
+                0 => 0,
+                1 => 13,
+                2 => m,
+                3 => (m as i64 + *rng.pick(&[1i64, -1, 12, -12])).clamp(0, 25) as u32,
+                _ => rng.below(14) as u32,
+            };
+            let d2 = if rng.chance(1, 2) { d } else { rng.below(33) as u32 };
+            rec.bin("triples/neighbour-sequence");
+            judge_triple(rec, y2, m2, d2, rng.chance(1, 8));
+        }
+    }));
+    wls.push(Workload::cases("day_neighbour_sequences", ctx.count(40_000, 1_000_000), move |rec, _idx, rng| {
+        let a = match rng.below(3) {
+            0 => *rng.pick(&[1900i64, 2000, 2100, 2200, 2300, 2400, 100, 400, -100, -400, -300, 1, 0, -1]),
+            1 => rng.range_i64(-3000, 3000),
+            _ => rng.range_i64(-5_879_000, 5_879_000),
+        };
+        let n0 = cal::days_from_civil(a, 1, 1) + *rng.pick(&[0i64, 14, 30, 31, 58, 59, 60, 364, 365]);
+        let mut prev = None;
+        judge_day(rec, n0, &mut prev, true);
+        for _ in 0..4 {
+            let n1 = match rng.below(5) {
+                0 => cal::days_from_civil(a + 1, 1, 1) + rng.range_i64(-1, 1),
+                1 => cal::days_from_civil(a, 12, 31) + rng.range_i64(-1, 1),
+                2 => n0 + *rng.pick(&[1i64, -1]) * (rng.range_i64(1, 4) << rng.range_i64(8, 31)),
+                3 => n0 + *rng.pick(&[365i64, 366, -365, -366, 146_097, -146_097, 1461, 36_524]),
+                _ => n0 + rng.range_i64(-400, 400),
+            };
+            if (cal::MIN_DAY..=cal::MAX_DAY).contains(&n1) {
+                rec.bin("days/neighbour-sequence");
+                let mut p2 = None;
+                judge_day(rec, n1, &mut p2, true);
+            }
+        }
+        let mut p3 = None;
+        judge_day(rec, n0, &mut p3, true);
+    }));
     let out = run_workloads(ctx, wls);
     let mut meta = PropMeta::default();
     meta.exhaustive = full;
